@@ -1,5 +1,6 @@
 import RTA.Lemmas.SupplyFifo
 import RTA.Lemmas.TimerSound
+import RTA.Lemmas.TimerSoundExample
 import RTA.Spec.Ros2Exec
 /-! # C04 — the ECRTS'19 ROS 2 analyses are safe under reservation supply
 
@@ -125,6 +126,21 @@ theorem polling_point_safe_reservation (s : Sys) (Q D P : ℕ) (hQ : 1 ≤ Q) (h
     ∀ j, j < s.n → s.task j = i → MeetsBound s j R :=
   pollingPoint_sound_reservation s Q D P hQ hQD hDP σ hσ i hl a C hwf hex hC interf hwfi hexi
     hN hcost hint limit R hR
+
+/-- non-vacuity of `timer_safe_reservation`: a concrete executor schedule (a higher-priority
+timer, the analysed timer, a polled callback) on a concrete (2, 4, 4) reservation with the budget
+at the end of every period satisfies every hypothesis; the analysis returns 10; the analysed
+instance completes after 7 (not within 6) -/
+theorem timer_safe_nonvacuous :
+    SupplyTimerLegal exSys exSigma 1 (fun k => k = 0) ∧ Compliant 2 4 4 exSigma ∧
+    ∃ R, rosTimer (.constrained 2 4 4) (.rbf (.periodic 20) (.scalar 2))
+          (.rbf (.periodic 20) (.scalar 1)) 1 100 = .ok R ∧
+      (∀ t d, countOf exSys 1 t (t + d) ≤ (Arr.periodic 20).N d) ∧
+      (∀ k, k < exSys.n → exSys.task k = 1 → exSys.cost k ≤ 2) ∧
+      (∀ t d, workOf exSys (fun k => k = 0) t (t + d) ≤ (RB.rbf (.periodic 20) (.scalar 1)).need d) ∧
+      (∀ k, k < exSys.n → ¬ Rel exSys 1 (fun k => k = 0) k → exSys.cost k ≤ 1 + 1) ∧
+      MeetsBound exSys 0 R ∧ ¬ MeetsBound exSys 0 6 :=
+  ⟨exSys_legal, exSigma_compliant, timer_sound_nonvacuous⟩
 
 /-- response times observed in a run of the executor model: every completed instance of
 callback `i` finished within `R` of its release -/
